@@ -768,8 +768,11 @@ expr_eval_move(struct expr *ex, struct expr_eval_arg *ea)
 static int
 expr_eval_neg(struct expr *ex, struct expr_eval_arg *ea)
 {
+	struct match *last, *mh;
+
 	assert(ex->ex_rhs == NULL);
 
+	last = TAILQ_LAST(ea->ea_ml, match_list);
 	switch (expr_eval(ex->ex_lhs, ea)) {
 	case EXPR_ERROR:
 		return EXPR_ERROR;
@@ -777,8 +780,15 @@ expr_eval_neg(struct expr *ex, struct expr_eval_arg *ea)
 		return EXPR_MATCH;
 	}
 
-	/* No match, invalidate match below current expression. */
-	matches_clear(ea->ea_ml);
+	/*
+	 * No match, invalidate the matches below the current expression only.
+	 * Anything already present, such as actions followed by pass, must
+	 * be left intact.
+	 */
+	while ((mh = TAILQ_LAST(ea->ea_ml, match_list)) != last) {
+		TAILQ_REMOVE(ea->ea_ml, mh, mh_entry);
+		match_free(mh);
+	}
 	return EXPR_NOMATCH;
 }
 
